@@ -190,6 +190,12 @@ RECIPES = {
         'synwild_a1': dict(kind='audio', timescale=48000, track_id=2, file_id=10,
                            durations=(48000, 192000, 48000, 192000, 47000)),
     },
+    # fragments that are not numbered from 1 (mfhd.sequence_number starts at 7)
+    'synnum': {
+        'synnum_v1': dict(kind='video', timescale=1000, durations=(2000, 2000, 2000, 2000, 2000), file_id=11, start_number=7),
+        'synnum_a1': dict(kind='audio', timescale=48000, track_id=2, file_id=12, start_number=7,
+                          durations=(96000, 96000, 96000, 96000, 96000)),
+    },
     # encrypted variants: 16-byte IV with sub-samples (video), 8-byte IV without (audio), + clear twins
     'synenc': {
         'synenc_v1': dict(kind='video', timescale=1000, durations=(2000, 3000, 2000), file_id=7),
